@@ -64,7 +64,8 @@ void family( std::string const& tname, std::vector<int> k, int step, int bq, int
     // a thread that picked its lock before a complete resize must not work on the bucket under the retired lock
     P( "resize-vs-ins-same", { { { INS, a, 0 }, { HAS, a, 0 } }, { { INS, b, 0 }, { INS, a, 0 } } }, bq, bt );
     P( "resize-vs-del-same", { { { DEL, k[0], 0 }, { HAS, k[0], 0 } }, { { INS, a, 0 }, { DEL, k[0], 0 } } }, bq, bt );
-    P( "3t-resize-ins-ins-same", { { { INS, a, 0 } }, { { INS, b, 0 } }, { { INS, a, 0 } } }, 2, 2 );
+    // (two preemptions for the striped sets, whose operations are short; the cuckoo relocations make that bound too expensive for the quick tier)
+    P( "3t-resize-ins-ins-same", { { { INS, a, 0 } }, { { INS, b, 0 } }, { { INS, a, 0 } } }, resize_prefix == 1 ? 2 : 1, 2 );
     P( "resize-vs-upsert", { { { INS, a, 0 } }, { { UPD_INS, k[0], 77 }, { FIND_F, k[0], 0 } } }, bq, bt );
 }
 
